@@ -139,8 +139,7 @@ func checkC08(c *Check) {
 	checkWholeCompile(c, r)
 	bigGrammar(c, r)
 	ruleTypeThresholds(c, r)
-	importsDedup(c, r)
-	importOrder(c, r)
+	importsDedup(c, r, importOrder(c, r))
 	gofmtRule(c, r)
 	insts := runtimeInstances(c, r)
 	n := 0
@@ -273,7 +272,7 @@ func ruleTypeThresholds(c *Check, r *Repo) {
 
 // importsDedup: R-imports (static): de-duplication between the appends to
 // t.Imports and template execution.
-func importsDedup(c *Check, r *Repo) {
+func importsDedup(c *Check, r *Repo, orderHolds bool) {
 	f := r.ssaFunc("tree", "Tree.Compile")
 	if f == nil {
 		c.Und("R-imports", "Compile", "", "not found")
@@ -333,6 +332,12 @@ func importsDedup(c *Check, r *Repo) {
 	if len(appends) > 0 {
 		pos = r.pos(appends[0].Pos())
 	}
+	if !(dedupe && len(appends) > 0) && orderHolds {
+		// the imports are not collected by appending to t.Imports and compacting (a set, a helper type): that every
+		// import is printed exactly once is what R-import-order has just decided by evaluating the pass
+		c.OK("R-imports", "Compile/t.Imports is de-duplicated before the template prints it", "", "the imports are not kept in the append-then-compact form this rule reads; decided by R-import-order")
+		return
+	}
 	c.Decide(dedupe && len(appends) > 0, "R-imports", "Compile/t.Imports is de-duplicated before the template prints it", pos,
 		fmt.Sprintf("%d append site(s); a de-duplication (slices.Compact after the sort, or a membership test) lies between them and template execution at %s", len(appends), r.pos(execPos)),
 		fmt.Sprintf("the generator unconditionally adds %d imports of its own (fmt, slices, strconv, …) and appends every import of the grammar without any membership test or Compact before the template ranges over .Imports: a grammar that imports one of those packages yields a duplicate import declaration (\"fmt redeclared\")", own))
@@ -349,7 +354,39 @@ func gofmtRule(c *Check, r *Repo) {
 	info := p.TypesInfo
 	var bad []string
 	sawParse, sawPrint := false, false
-	ast.Inspect(fd.Body, func(n ast.Node) bool {
+	// Compile and the functions of the package it calls (the tail may be split into helpers)
+	bodies := &ast.BlockStmt{}
+	{
+		decls := map[*types.Func]*ast.FuncDecl{}
+		for _, f := range p.Syntax {
+			for _, d := range f.Decls {
+				if d, ok := d.(*ast.FuncDecl); ok && d.Body != nil {
+					if fn, ok := info.Defs[d.Name].(*types.Func); ok {
+						decls[fn] = d
+					}
+				}
+			}
+		}
+		seen := map[*ast.FuncDecl]bool{fd: true}
+		work := []*ast.FuncDecl{fd}
+		for len(work) > 0 {
+			d := work[0]
+			work = work[1:]
+			bodies.List = append(bodies.List, d.Body)
+			ast.Inspect(d.Body, func(n ast.Node) bool {
+				if id, ok := n.(*ast.Ident); ok {
+					if fn, ok := info.Uses[id].(*types.Func); ok {
+						if cd := decls[fn.Origin()]; cd != nil && !seen[cd] {
+							seen[cd] = true
+							work = append(work, cd)
+						}
+					}
+				}
+				return true
+			})
+		}
+	}
+	ast.Inspect(bodies, func(n ast.Node) bool {
 		switch x := n.(type) {
 		case *ast.CallExpr:
 			if se, ok := x.Fun.(*ast.SelectorExpr); ok {
@@ -410,10 +447,10 @@ func gofmtRule(c *Check, r *Repo) {
 
 // importOrder: R-import-order — the import block is emitted in gofmt order
 // (sorted by import path), also when some imports carry an alias.
-func importOrder(c *Check, r *Repo) {
+func importOrder(c *Check, r *Repo) (holds bool) {
 	rg := findRegion(r)
 	if len(rg.problems) > 0 {
-		return
+		return false
 	}
 	type imp struct{ alias, path string }
 	cases := [][]imp{
@@ -508,5 +545,7 @@ func importOrder(c *Check, r *Repo) {
 			}
 		}()
 	}
+	holds = len(bad) == 0
 	c.Decide(len(bad) == 0, "R-import-order", "Compile/imports are emitted once each, with their names, in gofmt's order", "", fmt.Sprintf("%d import sets (aliases, nested paths, one path under several names, packages the runtime imports itself, repetitions) evaluated through the first pass: every import of the grammar is emitted once with its name, in gofmt's order (path, then name)", len(cases)), strings.Join(uniq(bad), "; "))
+	return holds
 }
